@@ -10,7 +10,7 @@
 From Coq Require Import String.
 From Sdns Require Import Common.Base Gen.C10 C10.Model C10.ModelStream C10.ModelShare C10.ModelPool
   C10.Proofs_UdpBase C10.Proofs_UdpInv C10.Proofs_UdpThm C10.Proofs_Stream C10.Proofs_Read C10.Proofs_Share C10.Proofs_Top
-  C10.Proofs_Pool C10.ModelChains C10.Proofs_Chains C10.Proofs_Read C10.Proofs_ConnFrames C10.ModelEdns C10.Proofs_Edns C10.Proofs_UdpStep C10.Proofs_Socks C10.Proofs_Msg C10.ModelFlight C10.Proofs_Flight.
+  C10.Proofs_Pool C10.ModelChains C10.Proofs_Chains C10.Proofs_Read C10.Proofs_ConnFrames C10.ModelEdns C10.Proofs_Edns C10.Proofs_UdpStep C10.Proofs_Socks C10.Proofs_Msg C10.ModelFlight C10.Proofs_Flight C10.ModelQuery C10.Proofs_Query C10.ModelWriter C10.Proofs_Writer C10.ModelWrap C10.Proofs_Wrap.
 Open Scope nat_scope.
 
 (* ties: the constants the proofs compute with are the source's *)
@@ -409,6 +409,109 @@ Theorem never_telling_the_leader_would_leak :
 Proof. exact leader_unshared_witness. Qed.
 Print Assumptions never_telling_the_leader_would_leak.
 
+(* ------------------------------------------------------------------ internal sub-queries
+   (middleware/queryer.go: pipelineQueryer.Query on a pooled BufferWriter and a pooled chain;
+   cache prefetch, CNAME chase, dns64, DS walks of many client requests run them at once).
+   For EVERY interleaving of the atomic steps of any number of concurrent Query calls — begin
+   (whatever objects bufferWriterPool / chainPool hand out), handler writes (none, one, several),
+   result evaluation, handler panic, deferred PutChain, deferred putBufferWriter:
+     what a Query call returns is exactly the first message its OWN handlers wrote — a step
+     [QWrite q m] of that very query — and "no response" exactly when they wrote none: never a
+     message of another query in flight, never one the pooled writer's previous user left behind;
+     no BufferWriter and no chain is used by two queries at once; a writer in the pool holds no
+     message and has no user. *)
+Theorem subquery_result_is_own : forall l,
+  let s := qsteps q_init l in
+  (forall q r f, In (q, r, f) (q_res s) -> r = f) /\
+  (forall q r m, In (q, r, Some m) (q_res s) -> In (QWrite q m) l) /\
+  (forall x y, In x (q_live s) -> In y (q_live s) -> ql_w x = ql_w y -> x = y) /\
+  (forall x y, In x (q_live s) -> In y (q_live s) -> ql_ph x <> QChainPut -> ql_ph y <> QChainPut ->
+               ql_c x = ql_c y -> x = y) /\
+  (forall w, In w (q_wpool s) -> nth_error (q_writers s) w = Some None /\
+                                 forall x, In x (q_live s) -> ql_w x <> w).
+Proof. exact query_lemma. Qed.
+Print Assumptions subquery_result_is_own.
+
+(* ... and clearing the captured reply before the writer goes back to the pool is necessary: in
+   the variant that keeps it, query 2 — whose handlers write nothing — is handed query 1's reply
+   (computed witness; second half: the code returns "no response" on the same schedule) *)
+Theorem put_without_clear_would_leak :
+  q_res (qsteps_keep q_init query_leak_schedule) = [(2, Some 7%N, None); (1, Some 7%N, Some 7%N)] /\
+  q_res (qsteps q_init query_leak_schedule) = [(2, None, None); (1, Some 7%N, Some 7%N)].
+Proof. exact put_without_clear_leaks. Qed.
+Print Assumptions put_without_clear_would_leak.
+
+(* ties: what putBufferWriter clears and the order of Query's defers are the source's (text);
+   BufferWriter.WriteMsg / Msg are TRANSLATED: WriteMsg stores the message it is given whatever
+   the writer held, Msg hands back what is stored *)
+Theorem subquery_ties :
+  (query_put_assigns = [str_msg] /\ query_defers = [str_putBufferWriter; str_PutChain] /\
+   put_writer_msg (Some 5%N) = None) /\
+  (forall w m, go_BufferWriter_WriteMsg w m = (false, mk_T_BufferWriter m)) /\
+  (forall w m, go_BufferWriter_Msg (snd (go_BufferWriter_WriteMsg w m)) = m).
+Proof. exact (conj query_source_ties (conj gen_BufferWriter_WriteMsg gen_BufferWriter_Msg)). Qed.
+Print Assumptions subquery_ties.
+
+(* ------------------------------------------------------------------ the base writer, every path
+   (responseWriter.Write / WriteMsg — direct pack through wire.TryPack or the library path —
+   / WriteWire; the last hop of EVERY reply, wire-born or pooled).  Whatever the chain served
+   before (any previous writer state w0), after a rebinding to transport t (Reset / ResetWire,
+   AllowDirectPack or not, internal consumer or not), for EVERY sequence of write requests of any
+   kind — bytes that decode or not, messages the pooled packer takes or declines, leased bodies:
+     the transport calls are exactly: the first request that is not an undecodable Write, once
+     (wf_spec); so at most ONE call is made for the request; it goes to t; it carries the payload
+     of the very write it answers (its bytes, the bytes the packer produced for ITS message, or
+     its message object); and a writer that is internal or not a declared byte sink is handed
+     the message OBJECT of a WriteMsg, never bytes (what Queryer.Query returns to its caller). *)
+Theorem base_writer_every_path_once : forall w0 t tcp ip internal direct l,
+  let es := snd (wf_run (wf_bind w0 t tcp ip internal direct) l) in
+  es = wf_spec t (direct && negb internal) true l /\
+  (length (filter is_some es) <= 1)%nat /\
+  (forall i c t', nth_error es i = Some (Some (t', c)) ->
+     t' = t /\ exists r, nth_error l i = Some r /\ own_call r c /\
+     (direct && negb internal = false -> match r with RMsg m _ _ => c = TMsg m | _ => True end)).
+Proof. exact base_writer_lemma. Qed.
+Print Assumptions base_writer_every_path_once.
+
+(* ... and returning right after a handled direct pack is necessary: the variant that goes on to
+   the library path hands the transport the reply twice (computed witness; second half: the code) *)
+Theorem falling_through_after_direct_pack_would_write_twice :
+  let w := wf_bind (mkWfull 9 true true 300 3 false 9 true true) 4 false 7 false true in
+  snd (wf_write_fallthrough w (RMsg 5 0 (Some [1; 2; 3]%N))) = [(4%N, TBytes [1; 2; 3]%N); (4%N, TMsg 5)] /\
+  snd (fst (wf_write w (RMsg 5 0 (Some [1; 2; 3]%N)))) = Some (4%N, TBytes [1; 2; 3]%N).
+Proof. exact fallthrough_writes_twice. Qed.
+Print Assumptions falling_through_after_direct_pack_would_write_twice.
+
+(* ------------------------------------------------------------------ pooled writer wrappers
+   (edns.responseWriterPool in EDNS.ServeDNS / serveWire, Cache.writerPool in Cache.ServeDNS and
+   every middleware of that shape: take a wrapper from the pool, bind it to the request and put
+   it in front of ch.Writer; on the way out — deferred, so also on a panic — restore ch.Writer,
+   zero the wrapper, put it back).  For EVERY interleaving of overlapping requests that wrap (any
+   wrapper the pools hand out, any nesting depth), write (any number of times) and unwind:
+     a reply passes only wrappers that hold ITS OWN request's facts (OPT size / DO / cookie /
+     NSID, cache scope, ...) and arrives at its own base writer, i.e. its own transport;
+     no wrapper is on the chains of two requests; a wrapper in a pool is the zero value and on
+     nobody's chain. *)
+Theorem pooled_wrappers_reply_goes_home : forall l,
+  let s := xsteps x_init l in
+  (forall r res, In (r, res) (x_log s) -> exists n, res = Some (r, repeat (Some r) n)) /\
+  (forall x y k, In x (x_live s) -> In y (x_live s) -> In k (map fst (x_stack x)) -> In k (map fst (x_stack y)) -> x = y) /\
+  (forall k, In k (x_pool s) ->
+     (exists lvl, nth_error (x_wrappers s) k = Some (mkWrapper lvl None None)) /\
+     forall x, In x (x_live s) -> ~ In k (map fst (x_stack x))).
+Proof. exact wrap_lemma. Qed.
+Print Assumptions pooled_wrappers_reply_goes_home.
+
+(* ... and putting a wrapper back exactly once is necessary: in the variant whose exit path puts it
+   twice, requests 2 and 3 — in flight together — are both handed wrapper 0 and request 2's reply,
+   shaped with 3's facts, lands on request 3's transport (computed witness; second half: the code
+   cannot take that step and 2's reply goes home) *)
+Theorem putting_a_wrapper_twice_would_cross :
+  x_log (xsteps_twice x_init wrap_leak_schedule) = [(2, Some (3, [Some 3]))] /\
+  x_log (xsteps x_init wrap_leak_schedule) = [(2, Some (2, [Some 2]))].
+Proof. exact double_put_crosses. Qed.
+Print Assumptions putting_a_wrapper_twice_would_cross.
+
 (* ------------------------------------------------------------------ non-vacuity *)
 (* a flight that is forgotten while running, its replacement with a follower who gives up, and a
    lone late caller: 1 alone on call 0 (not shared), 2 leads call 1 and is told shared because 3
@@ -487,3 +590,30 @@ Example pooled_transports_example :
             KEndPool 2; KEndPool 3])
   = [(2, 2%N, [2%N]); (3, 3%N, [3%N]); (1, 1%N, [1%N])].
 Proof. vm_compute. reflexivity. Qed.
+
+(* three overlapping sub-queries: 2 ends first and 3 takes over 2's chain while 2 still holds its
+   writer; 1's second write is refused; 4 reuses writer 1 and chain 0, writes nothing and comes
+   back empty-handed; every step is enabled *)
+Example subquery_example :
+  let s := qsteps q_init query_example_schedule in
+  qsteps_strict q_init query_example_schedule = Some s /\
+  q_res s = [(4, None, None); (3, Some 33%N, Some 33%N); (1, Some 11%N, Some 11%N); (2, Some 22%N, Some 22%N)] /\
+  q_live s = [] /\ q_writers s = [None; None; None].
+Proof. exact query_example. Qed.
+
+(* an undecodable Write leaves the writer unwritten; the message the packer declines goes out as an
+   object; the two requests after it are refused *)
+Example base_writer_paths_example :
+  let w := wf_bind (mkWfull 9 true true 300 3 false 9 true true) 4 false 7 false true in
+  snd (wf_run w [RBytes [9; 9]%N false 0; RMsg 5 3 None; RMsg 6 0 (Some [1%N]); RWire [2%N] 0])
+  = [None; Some (4%N, TMsg 5); None; None].
+Proof. exact base_writer_example. Qed.
+
+(* two wrapper levels (edns, cache): request 2 overlaps 1 and ends first, 3 takes over 2's wrappers
+   while 1 is still parked; everybody is answered through two wrappers holding their own facts *)
+Example pooled_wrappers_example :
+  let s := xsteps x_init wrap_example_schedule in
+  xsteps_strict x_init wrap_example_schedule = Some s /\
+  x_log s = [(3, Some (3, [Some 3; Some 3])); (1, Some (1, [Some 1; Some 1])); (2, Some (2, [Some 2; Some 2]))] /\
+  x_live s = [] /\ length (x_pool s) = 4.
+Proof. exact wrap_example. Qed.
